@@ -2276,13 +2276,9 @@ vbi_decode_teletext(vbi_decoder *vbi, uint8_t *buffer)
 			case PAGE_FUNCTION_GDRCS:
 			{
 				if (convert_drcs(vtp,
-						 vtp->data.drcs.lop.raw[1])) {
-					cache_page *new_cp;
-
-					new_cp = _vbi_cache_put_page
-						(vbi->ca, vbi->cn, vtp);
-					cache_page_unref (new_cp);
-				}
+						 vtp->data.drcs.lop.raw[1]))
+					_vbi_cache_put_page (vbi->ca,
+							     vbi->cn, vtp);
 				break;
 			}
 
